@@ -97,6 +97,16 @@ theorem pickle_gives_working_object :
     afterPickle = some ((true, true, true, true), some (.cov 13 (.reg "EME2000" 11) 14 (.reg "EME2000" 11)), some (.buf (.init 1000))) := by
   decide +kernel
 
+/-- OPEN finding C15-deepcopy-shares-data: `copy.deepcopy(sv)` falls through to `ndarray.__deepcopy__`; the new object
+(cell 9) has its own buffer (7) and dict (8), but the dict is a shallow copy — the maneuver list 2 and the `nested`
+container 4 stored in it are the receiver's own cells -/
+theorem deepcopy_shares_data :
+    stdDeepcopy h0 6 = (h0 ++ [ .buf (.init 0),
+                                .dict [("maneuvers", .addr 2), ("nested", .addr 4), ("date", .tok 100), ("form", .form "cartesian"),
+                                       ("frame", .frame (.reg "EME2000" 0))],
+                                .sv false 7 8 ], .ok 9) := by
+  decide +kernel
+
 /-! ### positive witnesses for the constructor / getter / failing-setter sites (each is a defect a maintainer could
 introduce there; the correspondence run compares exactly these situations with /repo) -/
 
